@@ -328,6 +328,10 @@ type Inst struct {
 	Dead bool  // abandoned (a call on it never returned)
 }
 
+// ZeroCap asks New for the public constructor with capacity 0 (IntKeyMap accepts it and turns it
+// into a table of one bucket; 0 itself selects the default constructor here).
+const ZeroCap = -7
+
 var (
 	StdCaps = []int{1, 2, 3, 7, 101}
 	StdLFs  = []float32{0.5, 0.75, 1, 2}
@@ -356,6 +360,8 @@ var Types = []*Descriptor{
 			in := &Inst{Type: TIntKeyMap, Cap: capacity, LF: lf}
 			if capacity == 0 {
 				in.Obj = hmap.NewIntKeyMapDefault()
+			} else if capacity == ZeroCap {
+				in.Obj = hmap.NewIntKeyMap(0, lf)
 			} else {
 				in.Obj = hmap.NewIntKeyMap(capacity, lf)
 			}
